@@ -106,6 +106,7 @@ _TEXT_ALPHABETS = [
     u'€中文ह￮�',            # 3-byte
     u'\U0001F600\U00010348\U0010FFFF\U00020000',        # 4-byte
     u'\x00\x7f\r\n',                                     # controls
+    u'{}{0}{x!r}%s%d%(a)s{{}}',     # format-string metacharacters
     u'﻿ࠀ퟿',                         # boundaries
 ]
 
